@@ -64,7 +64,9 @@ class as_preconditioner {
                 )
             : prm(prm)
         {
-            init(std::make_shared<build_matrix>(M), bprm);
+            auto A = std::make_shared<build_matrix>(M);
+            backend::sort_rows(*A);
+            init(A, bprm);
         }
 
         as_preconditioner(
